@@ -240,6 +240,9 @@ def check_C14(tier, seed):
     r = tlc("AtomFlow", "MC_AtomFlow_norerand.cfg", workers=2, name="mc_atomflow_mut")
     if r["ok"] or r["violated"] != "NoReuse":
         raise ToolError("AtomFlow with RERANDOMIZE = FALSE does not violate NoReuse: the model is vacuous")
+    r = tlc("AtomFlow", "MC_AtomFlow_leak.cfg", workers=2, name="mc_atomflow_mut2")
+    if r["ok"] or r["violated"] != "NoSecretLeak":
+        raise ToolError("AtomFlow with LEAK = TRUE does not violate NoSecretLeak: the model is vacuous")
     walks = tlc_simulate_steps("MCX_ZkAbacus", "MCX_ZkAbacus_sim.cfg", 6 if q else 40, 45 if q else 70, seed, name="sim_C14")
     lines = protodrv.scripts_from_walks(walks, SCALE_BIG)
     rng = random.Random(seed * 7 + 3)
@@ -283,7 +286,7 @@ def check_C14(tier, seed):
            "samples": [{k: (e[k] if k not in ("atoms", "secrets", "allowed") else len(e[k])) for k in e} for e in msgs[:6]],
            "messages_by_kind": {k: sum(1 for e in msgs if e["kind"] == k and e["dir"] == "c2m") for k in ("establish", "pay", "lock", "close")},
            "closing_messages": closes, "atoms_interned": max([max(e["atoms"]) for e in msgs if e["atoms"]] + [0]), "exhaustive": False,
-           "checker_cmd": "tlc AtomFlow (NoReuse; must fail with RERANDOMIZE = FALSE) + Trace_Atoms on harness histories"}
+           "checker_cmd": "tlc AtomFlow (NoReuse, NoSecretLeak; must fail with RERANDOMIZE = FALSE / LEAK = TRUE) + Trace_Atoms on harness histories"}
     return write_evidence("C14", tier, seed, "model_checking", cov, time.time() - t0, 0,
                           ["necessary condition for unlinkability only (as the property says); zero knowledge of the proofs is not decided",
                            "equality of atoms is byte equality of their canonical encodings"])
